@@ -160,19 +160,20 @@ def gen_ctor(ctx, r):
     return f"{fn} {k} {bs} {m0} {n} {seed} {L}", nb, n
 
 
-def gen_follow(ctx, r, nb, n):
-    """one follow-up line on the state; nb = (guessed) number of batches of the current folds' dataset"""
+def gen_follow(ctx, r, nb, n, kcur):
+    """one follow-up line on the state; nb = (guessed) number of batches of the current folds' dataset, kcur = its fold count
+    -> (line, nb, kcur)"""
     kind = r.choice(["show", "prev", "copy", "starts", "starts", "sets", "sets", "wsets", "wstarts", "again", "again", "nest", "nest", "nest"])
     ctx.hist("follow_up", kind)
     if kind in ("show", "prev", "copy"):
-        return kind, nb
+        return kind, nb, kcur
     if kind in ("starts", "wstarts"):
         m = r.range(1, min(nb, 4) + 1)
         st = sorted(r.below(nb + 1) for _ in range(m))
         if r.below(4): st[0] = 0
         ctx.hist("starts_first", "0" if st[0] == 0 else ">0")
         if len(set(st)) < len(st): ctx.count("starts_with_fold_without_batch")
-        return kind + " " + " ".join(map(str, st)), nb
+        return kind + " " + " ".join(map(str, st)), nb, (m if kind == "starts" else kcur)
     if kind in ("sets", "wsets"):
         m = r.range(1, 4)
         style = r.below(5)
@@ -186,30 +187,51 @@ def gen_follow(ctx, r, nb, n):
         if style == 2: sets = [sorted(s, reverse=True) for s in sets]       # descending
         ctx.hist("index_sets", ["overlap", "emptied", "descending", "shuffled", "shuffled"][style])
         if any(s != sorted(s) for s in sets): ctx.count("unsorted_index_set")
-        return kind + f" {m} " + " ".join(f"{len(s)} " + " ".join(map(str, s)) for s in sets).replace("  ", " ").strip(), nb
+        return kind + f" {m} " + " ".join(f"{len(s)} " + " ".join(map(str, s)) for s in sets).replace("  ", " ").strip(), nb, (m if kind == "sets" else kcur)
     fn = r.choice(["indexed", "fully", "iid", "samesize", "balanced", "batch"])
     k = r.choice([1, 2, 2, 3, 4, r.range(1, max(2, n // 2 + 1))])
     bs = r.choice([0, 1, 2, 3, r.range(1, n + 2)])
     tail = f"{FN_NUM[fn]} {k} {bs} {r.below(1000000)} {r.range(1, 8)} {r.below(8)}"
     ctx.hist("second_construction", fn)
     if kind == "again":
-        return "again " + tail, max(1, r.range(1, k + 2))
+        return "again " + tail, max(1, r.range(1, k + 2)), k
     w = 0 if r.below(3) else 1
     ctx.hist("nested_on", "training" if w == 0 else "validation")
-    return f"nest {w} {r.below(3)} " + tail, max(1, r.range(1, k + 2))
+    return f"nest {w} {r.below(max(1, kcur))} " + tail, max(1, r.range(1, k + 2)), k
 
 
 def gen_case(ctx, r):
     op, nb, n = gen_ctor(ctx, r)
-    if r.below(3):
+    if r.below(3) == 0:
         return [op]
     lines = ["new", op]
+    kcur = int(op.split()[1])
     steps = r.range(1, 5)
     ctx.hist("history_length", steps)
     for _ in range(steps):
-        l, nb = gen_follow(ctx, r, nb, n)
+        l, nb, kcur = gen_follow(ctx, r, nb, n, kcur)
         lines.append(l)
     return lines
+
+
+def measure_outcomes(ctx, cases, dcmd):
+    """what the generated lines led to (model side, element type uint): status per op kind, folds without element, depth"""
+    import subprocess
+    ops = [l for c in cases for l in c]
+    try:
+        out = subprocess.run(dcmd, input="\n".join(ops) + "\n", stdout=subprocess.PIPE, text=True, timeout=600).stdout.splitlines()
+    except Exception as e:                                            # evidence only
+        ctx.cov["op_outcome_error"] = str(e)[:200]
+        return
+    for o, l in zip(ops, out):
+        k = o.split()[0]
+        ctx.hist("op_outcome", f"{k}:{l.split()[0] if l else 'none'}")
+        if l.startswith("ok") and " F" in l:
+            nf = l.count(" val={")
+            empty = l.count("val={ish=[] lsh=[] part=[] lpart=[] el=[]}") + l.count("part=[] lpart=[] el=[]} train=")
+            ctx.hist("folds_of_result", min(nf, 10))
+            if empty: ctx.count("results_with_a_fold_without_element")
+            if "part=[] lpart=[] el=[]}}" in l: ctx.count("results_with_an_empty_training_part")
 
 
 def nontrivial(op):
@@ -267,6 +289,7 @@ def run(ctx):
     dsgen.run_types(one, dsgen.types(TYPES + ([] if ctx.quick else TYPES_THOROUGH), 'VERIF_C12_TYPES'))
     if os.environ.get('VERIF_C12_TYPES'):
         return
+    measure_outcomes(ctx, cases[:3000], [sys.executable, feed, RNG_OPS, exes["cls"], "uint", "cls", "--", drv, "cls"])
     # open findings that are visible at compile time only
     core.correspond(ctx, "K-C12[probes]", probes, [exes["cls"], "uint", "cls"],
                     [sys.executable, feed, RNG_OPS, exes["cls"], "uint", "cls", "--", drv, "cls"], classify, keep_prefix=0,
